@@ -6,7 +6,7 @@ import sys
 import traceback
 
 
-class _Timeout(Exception):
+class _Timeout(BaseException):   # BaseException: asyncio callbacks that catch Exception must not swallow the watchdog
     pass
 
 
